@@ -129,6 +129,8 @@ struct Scenario {
     drop_ok: bool,
     /// the harness metric post-processes every track comparison (keeps its closest pairs only)
     post: bool,
+    /// before the query, an add of the queried class to a stored track without that class has failed
+    failed_add: bool,
     /// an earlier query on the same store: 0 = none, 1 = abandoned (both streams dropped unread),
     /// 2 = results read, error stream dropped unread, 3 = dispatched and NOT read yet: still in flight while the
     /// query under test runs, read afterwards
@@ -140,6 +142,16 @@ fn run_scenario(sc: &Scenario) -> Obs {
     for s in contents().iter().take(sc.ntracks) {
         let t = make(&store, s);
         store.add_track(t).unwrap();
+    }
+    if sc.failed_add {
+        // an earlier add that FAILED (the observation optimisation of the metric returns an error): an observation of
+        // the queried class for track 4, which has none of that class - the track stays as it was, so the query still
+        // reports it on the error stream
+        arm(FaultPlan { fail_optimize_kth: Some(1), ..Default::default() });
+        let r = store.add(4, 0, Some(1.0), None, None);
+        disarm();
+        let _ = take_notifications();
+        assert!(r.is_err(), "the injected failure of optimize() did not make store.add fail");
     }
     let mut in_flight = None;
     if sc.prior == 3 {
@@ -240,7 +252,7 @@ fn expected(sc: &Scenario) -> (Vec<Item>, usize, Vec<TrackDump>) {
 
 pub fn run(tier: Tier) -> Report {
     let rep = Report::new("C10", tier);
-    rep.set_rule("scenarios = store contents (4-6 tracks: mixed compatibility class, status Pending / Ready / Wasted, 0..2 observations in classes {0,1}, a pair beyond the metric cut-off) x candidate batch {one foreign, two foreign, foreign with a stored id, owned [1], owned [1,2], owned [2,4,1]} x only_baked x result streams consumed through all() / into_iter() x {fresh store, after an earlier query that was abandoned unread, after one whose error stream was dropped unread, while an earlier foreign query is still in flight (dispatched before, read after: it must deliver its complete result), result half dropped unread and only the error half read; a metric whose post-processing hook keeps only the closest pairs of each track comparison} x shard count; for each scenario every schedule of the store workers and the caller at command granularity within the preemption bound (window = the query until both result streams are drained); oracle: result multiset = reference cartesian product, error count, store unchanged, identical across schedules. states = executions (schedules), transitions = decision points.");
+    rep.set_rule("scenarios = store contents (4-6 tracks: mixed compatibility class, status Pending / Ready / Wasted, 0..2 observations in classes {0,1}, a pair beyond the metric cut-off) x candidate batch {one foreign, two foreign, foreign with a stored id, owned [1], owned [1,2], owned [2,4,1]} x only_baked x result streams consumed through all() / into_iter() x {fresh store, after an earlier query that was abandoned unread, after one whose error stream was dropped unread, while an earlier foreign query is still in flight (dispatched before, read after: it must deliver its complete result), result half dropped unread and only the error half read; a metric whose post-processing hook keeps only the closest pairs of each track comparison; after a failed add (optimize() error) of the queried class to a stored track that has none of it} x shard count; for each scenario every schedule of the store workers and the caller at command granularity within the preemption bound (window = the query until both result streams are drained); oracle: result multiset = reference cartesian product, error count, store unchanged, identical across schedules. states = executions (schedules), transitions = decision points.");
     rep.assume("macro-step granularity: branching at named schedule points (worker dequeues a command; caller finished queueing; owned query between 'commands sent' and 're-added') and whenever the running task blocks");
     let shard_counts: Vec<usize> = tier.pick(vec![1, 2], vec![1, 2, 3]);
     let bound = usize::MAX / 4; // every schedule at command granularity (the spaces are small); the wall cap is the only limit
@@ -249,7 +261,7 @@ pub fn run(tier: Tier) -> Report {
     let mut vacuity: BTreeMap<String, serde_json::Value> = BTreeMap::new();
     for &shards in &shard_counts {
         for batch in batches {
-            for (only_baked, iter, prior) in [(false, false, 0u8), (true, false, 0), (false, true, 0), (true, true, 0), (false, false, 1), (false, false, 2), (false, true, 1), (false, false, 3), (false, false, 4), (false, false, 5), (true, false, 5)] {
+            for (only_baked, iter, prior) in [(false, false, 0u8), (true, false, 0), (false, true, 0), (true, true, 0), (false, false, 1), (false, false, 2), (false, true, 1), (false, false, 3), (false, false, 4), (false, false, 5), (true, false, 5), (false, false, 6), (true, true, 6)] {
                 if tier == Tier::Quick && (only_baked && (batch == "foreign2" || batch == "owned3") || iter && only_baked && batch != "foreign-stored-id") {
                     continue;
                 }
@@ -257,7 +269,7 @@ pub fn run(tier: Tier) -> Report {
                 if prior > 0 && prior != 4 && (tier == Tier::Quick && !(batch == "foreign1" || batch == "owned2") || iter && batch != "foreign1") {
                     continue;
                 }
-                let sc = Scenario { shards, batch, only_baked, ntracks: if batch == "owned3" { 5 } else if only_baked { 6 } else { 4 }, iter, drop_ok: prior == 4, post: prior == 5, prior: if prior == 5 { 0 } else { prior } };
+                let sc = Scenario { shards, batch, only_baked, ntracks: if batch == "owned3" { 5 } else if only_baked { 6 } else { 4 }, iter, drop_ok: prior == 4, post: prior == 5, failed_add: prior == 6, prior: if prior >= 5 { 0 } else { prior } };
                 if rep.out_of_time() {
                     rep.cap_hit(&format!("wall budget reached before scenario {sc:?}"));
                     continue;
@@ -320,7 +332,7 @@ pub fn run(tier: Tier) -> Report {
                 if stats.truncated {
                     rep.cap_hit(&format!("scenario {sc:?} truncated by the wall cap after {} schedules", stats.executions));
                 }
-                vacuity.insert(format!("{batch}/baked={only_baked}/shards={shards}/{}{}", if iter { "iter" } else { "all" }, match prior { 0 => "", 1 => "/after-abandoned-query", 2 => "/after-half-read-query", 3 => "/while-an-earlier-query-is-in-flight", 4 => "/result-half-dropped-unread", _ => "/closest-pairs-post-processing" }), json!({"schedules":stats.executions,"max_decision_points":stats.max_points,"distinct_outcomes":n_out,"distinct_arrival_orders":arrivals.lock().unwrap().len(),"bound":"all","truncated":stats.truncated}));
+                vacuity.insert(format!("{batch}/baked={only_baked}/shards={shards}/{}{}", if iter { "iter" } else { "all" }, match prior { 0 => "", 1 => "/after-abandoned-query", 2 => "/after-half-read-query", 3 => "/while-an-earlier-query-is-in-flight", 4 => "/result-half-dropped-unread", 5 => "/closest-pairs-post-processing", _ => "/after-a-failed-add-of-the-queried-class" }), json!({"schedules":stats.executions,"max_decision_points":stats.max_points,"distinct_outcomes":n_out,"distinct_arrival_orders":arrivals.lock().unwrap().len(),"bound":"all","truncated":stats.truncated}));
                 if rep.want_sample(total_exec) || vacuity.len() == 3 {
                     rep.sample(json!({"scenario":scj,"expected_pairs":exp_ok.iter().map(|i| (i.0,i.1)).collect::<Vec<_>>(),"expected_errors":exp_err,"schedules":stats.executions}));
                 }
@@ -329,8 +341,8 @@ pub fn run(tier: Tier) -> Report {
     }
     // fine tier: branch at every synchronisation operation (one preemption) on the smallest scenarios
     let fine: Vec<Scenario> = tier.pick(
-        vec![Scenario { shards: 1, batch: "owned2", only_baked: false, ntracks: 4, iter: false, drop_ok: false, post: false, prior: 0 }, Scenario { shards: 2, batch: "foreign1", only_baked: false, ntracks: 4, iter: true, drop_ok: false, post: false, prior: 1 }, Scenario { shards: 2, batch: "owned2", only_baked: false, ntracks: 4, iter: false, drop_ok: false, post: false, prior: 0 }, Scenario { shards: 1, batch: "owned2", only_baked: false, ntracks: 4, iter: false, drop_ok: false, post: false, prior: 3 }, Scenario { shards: 2, batch: "owned2", only_baked: false, ntracks: 4, iter: false, drop_ok: false, post: false, prior: 3 }],
-        vec![Scenario { shards: 1, batch: "owned2", only_baked: false, ntracks: 4, iter: false, drop_ok: false, post: false, prior: 3 }, Scenario { shards: 2, batch: "owned2", only_baked: false, ntracks: 4, iter: false, drop_ok: false, post: false, prior: 3 }, Scenario { shards: 1, batch: "owned2", only_baked: false, ntracks: 4, iter: false, drop_ok: false, post: false, prior: 0 }, Scenario { shards: 2, batch: "foreign1", only_baked: false, ntracks: 4, iter: true, drop_ok: false, post: false, prior: 1 }, Scenario { shards: 2, batch: "owned2", only_baked: false, ntracks: 4, iter: true, drop_ok: false, post: false, prior: 0 }, Scenario { shards: 2, batch: "foreign2", only_baked: true, ntracks: 4, iter: false, drop_ok: false, post: false, prior: 0 }],
+        vec![Scenario { shards: 1, batch: "owned2", only_baked: false, ntracks: 4, iter: false, drop_ok: false, post: false, failed_add: false, prior: 0 }, Scenario { shards: 2, batch: "foreign1", only_baked: false, ntracks: 4, iter: true, drop_ok: false, post: false, failed_add: false, prior: 1 }, Scenario { shards: 2, batch: "owned2", only_baked: false, ntracks: 4, iter: false, drop_ok: false, post: false, failed_add: false, prior: 0 }, Scenario { shards: 1, batch: "owned2", only_baked: false, ntracks: 4, iter: false, drop_ok: false, post: false, failed_add: false, prior: 3 }, Scenario { shards: 2, batch: "owned2", only_baked: false, ntracks: 4, iter: false, drop_ok: false, post: false, failed_add: false, prior: 3 }],
+        vec![Scenario { shards: 1, batch: "owned2", only_baked: false, ntracks: 4, iter: false, drop_ok: false, post: false, failed_add: false, prior: 3 }, Scenario { shards: 2, batch: "owned2", only_baked: false, ntracks: 4, iter: false, drop_ok: false, post: false, failed_add: false, prior: 3 }, Scenario { shards: 1, batch: "owned2", only_baked: false, ntracks: 4, iter: false, drop_ok: false, post: false, failed_add: false, prior: 0 }, Scenario { shards: 2, batch: "foreign1", only_baked: false, ntracks: 4, iter: true, drop_ok: false, post: false, failed_add: false, prior: 1 }, Scenario { shards: 2, batch: "owned2", only_baked: false, ntracks: 4, iter: true, drop_ok: false, post: false, failed_add: false, prior: 0 }, Scenario { shards: 2, batch: "foreign2", only_baked: true, ntracks: 4, iter: false, drop_ok: false, post: false, failed_add: false, prior: 0 }],
     );
     let fine_bound = tier.pick(2usize, 3usize);
     for sc in fine {
@@ -361,7 +373,7 @@ pub fn run(tier: Tier) -> Report {
     rep.extra("scenarios", json!(vacuity));
     rep.extra("preemption_bound_completed", json!("unbounded: every schedule at command granularity; fine tier: 2 (thorough 3) departures from the default schedule at any synchronisation operation"));
     // determinism self-check: the same schedule twice gives the same observation
-    let sc = Scenario { shards: 2, batch: "foreign2", only_baked: false, ntracks: 4, iter: false, drop_ok: false, post: false, prior: 0 };
+    let sc = Scenario { shards: 2, batch: "foreign2", only_baked: false, ntracks: 4, iter: false, drop_ok: false, post: false, failed_add: false, prior: 0 };
     let cfg = sched::ExploreCfg { window: (1, 1), ..Default::default() };
     let f = std::sync::Arc::new(move || run_scenario(&sc));
     let mut replays = 0;
@@ -397,7 +409,7 @@ pub fn replay(file: &serde_json::Value) -> i32 {
         "owned2" => "owned2",
         _ => "owned3",
     };
-    let scen = Scenario { shards: sc["shards"].as_u64().unwrap_or(1) as usize, batch, only_baked: sc["only_baked"].as_bool().unwrap_or(false), ntracks: sc["tracks"].as_u64().unwrap_or(4) as usize, iter: sc["consumed_through"].as_str() == Some("into_iter()"), drop_ok: sc["earlier_query"].as_u64() == Some(4), post: sc["earlier_query"].as_u64() == Some(5), prior: match sc["earlier_query"].as_u64().unwrap_or(0) as u8 { 5 => 0, p => p } };
+    let scen = Scenario { shards: sc["shards"].as_u64().unwrap_or(1) as usize, batch, only_baked: sc["only_baked"].as_bool().unwrap_or(false), ntracks: sc["tracks"].as_u64().unwrap_or(4) as usize, iter: sc["consumed_through"].as_str() == Some("into_iter()"), drop_ok: sc["earlier_query"].as_u64() == Some(4), post: sc["earlier_query"].as_u64() == Some(5), failed_add: sc["earlier_query"].as_u64() == Some(6), prior: match sc["earlier_query"].as_u64().unwrap_or(0) as u8 { 5 | 6 => 0, p => p } };
     let fine = sc["granularity"].is_string();
     let choices: Vec<usize> = r["schedule"]["choices"].as_array().map(|a| a.iter().map(|x| x.as_u64().unwrap_or(0) as usize).collect()).unwrap_or_default();
     let (exp_ok, exp_err, _) = expected(&scen);
